@@ -293,3 +293,29 @@ Definition stream_field (w : nat) (fill : N) (left : bool) (s : str) : str :=
 Definition stream_seq (w : nat) (fill : N) (left hexbase : bool) (n : N) (v : str) : str :=
   let num := if hexbase then to_hex n else to_dec n in
   stream_field w fill left v ++ [124] ++ num ++ [124] ++ v ++ [124] ++ stream_field 12 fill left num.
+
+(* ------------------------------------------------------------------ a long-lived DmxBuffer
+   The object as SetFromString sees it: the 512-byte block it owns (whatever earlier calls left in
+   it) and m_length.  SetFromString writes m_data[i] for every field i < 512 (an empty field is
+   atoi("") = 0 and IS written) and sets m_length to the number of fields; the frame is the first
+   m_length bytes.  Set(data, n) and SetRangeToValue(0, v, n) are the other writers the
+   correspondence uses to make the block dirty.                                                 *)
+Definition dmx_obj : Type := (list N * nat)%type.
+Definition dmx_new : dmx_obj := (repeat 0 DMX_UNIVERSE_SIZE, 0%nat).
+Definition overwrite (old new : list N) : list N := new ++ skipn (length new) old.
+Inductive dmx_op : Type :=
+| OpText (input : str)            (* SetFromString(input) *)
+| OpSet (data : list N)           (* Set(data, length data), length data <= 512 *)
+| OpRange (v : N) (n : nat).      (* SetRangeToValue(0, v, n), n <= 512 *)
+Definition dmx_step (o : dmx_obj) (op : dmx_op) : dmx_obj :=
+  let '(block, len) := o in
+  match op with
+  | OpText input =>
+    if is_empty input then (block, 0%nat)
+    else let items := map dmx_item (firstn DMX_UNIVERSE_SIZE (string_split [44] input)) in
+         (overwrite block items, length items)
+  | OpSet data => let d := firstn DMX_UNIVERSE_SIZE data in (overwrite block d, length d)
+  | OpRange v n => let k := Nat.min n DMX_UNIVERSE_SIZE in (overwrite block (repeat v k), Nat.max len k)
+  end.
+Definition dmx_frame (o : dmx_obj) : list N := firstn (snd o) (fst o).
+Definition dmx_run (ops : list dmx_op) : dmx_obj := fold_left dmx_step ops dmx_new.
